@@ -1021,6 +1021,13 @@ class Exec(object):
                 o = a if isinstance(a, SObj) else b
                 return self.obj_eq(o, None, line)
             return a is b
+        if isinstance(a, sym.SOid) or isinstance(b, sym.SOid):
+            o, t = (a, b) if isinstance(a, sym.SOid) else (b, a)
+            if isinstance(t, sym.SOid):
+                return SBool(o.t == t.t)
+            if isinstance(t, tuple) and all(isinstance(x, int) for x in t):
+                return SBool(o.t == sym.oid_const(t))
+            return False
         if isinstance(a, tuple) and isinstance(b, tuple):
             if len(a) != len(b):
                 return False
